@@ -6,7 +6,8 @@
    C07/Model.v that the correspondence ties execute at binary64. *)
 From Coq Require Import List Arith ZArith Bool Reals.
 From T4V Require Import Base.Scalar C07.Model C07.ProofsAlgebra C07.ProofsComb C07.ProofsMain
-  C07.ProofsGeom C07.ProofsExample C07.ProofsDomain C07.ProofsRhp C07.ProofsDevelop.
+  C07.ProofsGeom C07.ProofsExample C07.ProofsDomain C07.ProofsRhp C07.ProofsDevelop
+  C07.ProofsErrors.
 Import ListNotations.
 Open Scope R_scope.
 
@@ -437,3 +438,78 @@ Theorem C07_hex_lattice_developed :
       v <> 0%Z /\ D6.elem_located cell vecs v e) elems.
 Proof. exact hex_lattice_developed. Qed.
 Print Assumptions C07_hex_lattice_developed.
+
+(* ---------- outside the family: the error behaviour of the model ---------- *)
+
+(* a plane list that has neither six nor eight entries: AssertionError *)
+Theorem C07_base_vectors_wrong_count : forall surfs : list rsurf,
+  List.length surfs <> 6%nat -> List.length surfs <> 8%nat ->
+  hexLatticeBaseVectors RS surfs = Err EAssert.
+Proof. exact base_vectors_wrong_count. Qed.
+Print Assumptions C07_base_vectors_wrong_count.
+
+(* pointInPlaneIntersection raises exactly on parallel planes (ZeroDivisionError) *)
+Theorem C07_intersection_error_iff : forall p1 n1 p2 n2 : rvec,
+  (pointInPlaneIntersection RS (p1, n1) (p2, n2) = Err EZeroDiv <-> cross n1 n2 = (0, 0, 0)) /\
+  (cross n1 n2 <> (0, 0, 0) -> exists L, pointInPlaneIntersection RS (p1, n1) (p2, n2) = Ok L).
+Proof. exact intersection_error_iff. Qed.
+Print Assumptions C07_intersection_error_iff.
+
+(* hexSortSides on six planes has three outcomes: ZeroDivisionError iff two
+   planes of different groups are parallel; else the dictionary with exactly six
+   intersections, or LatticeError *)
+Theorem C07_sort_sides_outcomes : forall surfs : list rsurf,
+  List.length surfs = 6%nat ->
+  ((exists i j, (i < j < 6)%nat /\ (i / 2 <> j / 2)%nat /\
+                cross (snd (pl surfs i)) (snd (pl surfs j)) = (0, 0, 0)) /\
+   hexSortSides RS surfs = Err EZeroDiv) \/
+  ((forall i j, (i < j < 6)%nat -> (i / 2 <> j / 2)%nat ->
+                cross (snd (pl surfs i)) (snd (pl surfs j)) <> (0, 0, 0)) /\
+   ((exists adj, hexSortSides RS surfs = Ok adj /\ count_some adj = 6%nat) \/
+    hexSortSides RS surfs = Err ELattice)).
+Proof. exact sort_sides_outcomes. Qed.
+Print Assumptions C07_sort_sides_outcomes.
+
+(* degenerate prisms: two side planes of different groups parallel =>
+   ZeroDivisionError from hexLatticeBaseVectors, whatever the other planes *)
+Theorem C07_base_vectors_parallel_planes : forall surfs : list rsurf,
+  List.length surfs = 6%nat \/ List.length surfs = 8%nat ->
+  (exists i j, (i < j < 6)%nat /\ (i / 2 <> j / 2)%nat /\
+               cross (snd (pl surfs i)) (snd (pl surfs j)) = (0, 0, 0)) ->
+  hexLatticeBaseVectors RS surfs = Err EZeroDiv.
+Proof. exact base_vectors_parallel_planes. Qed.
+Print Assumptions C07_base_vectors_parallel_planes.
+
+(* ... which is what a non strictly convex hexagon gives: two consecutive sides
+   on one line (a flat vertex) have parallel planes *)
+Theorem C07_collinear_sides_parallel : forall (u q0 q1 q2 : rvec) (pa pb : rplane),
+  cross (vsub q1 q0) u <> (0, 0, 0) -> vsub q2 q1 <> (0, 0, 0) ->
+  cross (vsub q2 q1) (vsub q1 q0) = (0, 0, 0) ->
+  dot (snd pa) u = 0 -> on_plane q0 pa -> on_plane q1 pa ->
+  dot (snd pb) u = 0 -> on_plane q1 pb -> on_plane q2 pb ->
+  cross (snd pa) (snd pb) = (0, 0, 0).
+Proof. exact collinear_sides_parallel. Qed.
+Print Assumptions C07_collinear_sides_parallel.
+
+(* the while loop of hexVertices, on EVERY dictionary with exactly six
+   intersections among the twelve pairs of different groups (924 dictionaries x 6
+   first sides, by vm_compute): it ends, with six vertices, iff the intersections
+   form one closed tour of the six sides; otherwise it never ends (ELoop) *)
+Theorem C07_walk_ends_iff_closed_tour : forall (ps : list (nat * nat)) (first : nat),
+  In ps (sublists 6 cross_pairs) -> (first < 6)%nat ->
+  (closed_tour ps = true /\
+   exists ks, hex_vertices_abs (pair_in ps) first = Ok ks /\ List.length ks = 6%nat) \/
+  (closed_tour ps = false /\ hex_vertices_abs (pair_in ps) first = Err ELoop).
+Proof. exact walk_ends_iff_closed_tour. Qed.
+Print Assumptions C07_walk_ends_iff_closed_tour.
+
+(* any other number of intersections: LatticeError before the traversal *)
+Theorem C07_sort_count_error : forall adjb : nat -> nat -> bool,
+  (exists adj, sort_sides_abs adjb = Ok adj /\ count_some adj = 6%nat) \/
+  sort_sides_abs adjb = Err ELattice.
+Proof. exact sort_count_error. Qed.
+Print Assumptions C07_sort_count_error.
+
+Example C07_open_chain_never_ends :
+  hex_vertices_abs (pair_in [(0, 2); (0, 4); (1, 3); (1, 5); (2, 4); (3, 5)]%nat) 0 = Err ELoop.
+Proof. vm_compute. reflexivity. Qed.
